@@ -189,12 +189,15 @@ func lproducers() []lprod {
 			return ltup(list.ZipWithIndex(lsrc(in))), e
 		}},
 		{"Zip3", func(in []int) (fp.List[int], []int) {
+			// operands of independently chosen lengths: the shortest decides
+			la, lb, lc := zz.IntIn("la", 0, len(in)), zz.IntIn("lb", 0, len(in)), zz.IntIn("lc", 0, len(in))
+			a, b, c := in[:la], in[:lb], in[:lc]
 			var e []int
-			for _, x := range in {
-				e = append(e, x+x+x)
+			for i := 0; i < len(a) && i < len(b) && i < len(c); i++ {
+				e = append(e, zz.UFInt("z3", a[i], b[i], c[i]))
 			}
-			z := list.Zip3(lsrc(in), lsrc(in), lsrc(in))
-			return list.Map(z, func(t fp.Tuple3[int, int, int]) int { return t.I1 + t.I2 + t.I3 }), e
+			z := list.Zip3(lsrc(a), lsrc(b), lsrc(c))
+			return list.Map(z, func(t fp.Tuple3[int, int, int]) int { return zz.UFInt("z3", t.I1, t.I2, t.I3) }), e
 		}},
 		{"Scan", func(in []int) (fp.List[int], []int) {
 			f := ufF2("f")
